@@ -168,3 +168,20 @@ package coroutines
 //@ ghostdb coroutine
 //@ overflow C10
 //@ requires c != nil && config != nil && tags != nil
+
+//@ func completePromise$1
+//@ props C01 C04 C05 C08
+//@ ghostdb coroutine
+//@ requires c != nil && cmd != nil && cmd.Value.Headers != nil && cmd.Value.Data != nil
+//@ requires cmd.State == promise.Resolved || cmd.State == promise.Rejected || cmd.State == promise.Canceled || cmd.State == promise.Timedout
+//@ requires cmd.State == promise.Timedout ==> false
+//@ ensures err != nil ==> !result0
+
+//@ func createPromise$1
+//@ props C01 C08 C10
+//@ ghostdb coroutine
+//@ requires c != nil && promiseCmd != nil && promiseCmd.Param.Headers != nil && promiseCmd.Param.Data != nil && promiseCmd.Tags != nil
+//@ requires taskCmd != nil ==> taskCmd.Mesg != nil && (taskCmd.State == task.Init || taskCmd.State == task.Claimed) && (taskCmd.State != task.Claimed || taskCmd.ProcessId != nil)
+//@ ensures [await C08 C10] err == nil ==> result0 != nil && result0.Store != nil && len(result0.Store.Results) >= 1 && result0.Store.Results[0] != nil
+//@ ensures [await C08 C10] err == nil ==> (result0.Store.Results[0].Kind == t_aio.CreatePromise && result0.Store.Results[0].CreatePromise != nil) || (result0.Store.Results[0].Kind == t_aio.CreatePromiseAndTask && result0.Store.Results[0].CreatePromiseAndTask != nil)
+//@ ensures [await C08 C10] err != nil ==> result0 == nil
